@@ -1,6 +1,7 @@
 #!/bin/bash
 # usage: seedtest.sh <ID> <patch.diff> [tier] : apply a seeded change to a SCRATCH COPY of /repo's HEAD, run the check on it
-ID=$1; P=$2; TIER=${3:-quick}
+ID=$1; P=$(readlink -f "$2"); TIER=${3:-quick}
+[ -f "$P" ] || { echo "NO SUCH PATCH $2"; exit 3; }
 T=/tmp/seedt.$$; rm -rf $T; mkdir -p $T; git -C /repo archive HEAD | tar -x -C $T
 cd $T && git init -q . && git add -A >/dev/null 2>&1 && git -c user.email=x -c user.name=x commit -qm base >/dev/null
 if ! git apply "$P" 2>/dev/null; then
